@@ -102,6 +102,21 @@ def DT(local, off):
     return {"dt": [local, off]}
 
 
+SRC_UNIT = {("second", "exact"): 1000000, ("millisecond", "exact"): 1000}
+
+
+def SDT(local, off, prec, cons):
+    """a STIXdatetime taken from another object's timestamp property (cleaned there at prec / cons)"""
+    return {"sdt": [local, off, prec, cons]}
+
+
+def sdt_fields(v):
+    """(local fields as stored, offset) of an SDT value: truncated once, where it was first cleaned"""
+    local, off, prec, cons = v["sdt"]
+    u = SRC_UNIT.get((prec, cons), 1)
+    return local // u * u, off
+
+
 def ts_text(us, digits):
     """canonical text of an instant with `digits` fractional digits (truncating)."""
     import datetime as dt
@@ -134,6 +149,9 @@ def instant_of_value(v):
         return None
     if "dt" in v:
         return v["dt"][0] - (v["dt"][1] or 0)
+    if "sdt" in v:
+        l, o = sdt_fields(v)
+        return l - o
     if "date" in v:
         return c15.instant(*v["date"], 0, 0, 0, None)
     if isinstance(v.get("j"), str):
@@ -282,7 +300,19 @@ def gen_chain(rng, case, ty, pred, max_ops, marking_ok=True):
             us = pred.clock(rng)
             ch, ac = legal_changes(rng, ver, ty, carrier, None)
             ch = [c for c in ch if c[0] != "modified"][:1]
-            ch.insert(rng.randint(0, len(ch)), ["modified", ts_value(rng, us, allow_naive=False)])
+            if rng.random() < 0.4:
+                # a timestamp OBJECT taken from a peer of either spec version (a STIXdatetime carrying its own
+                # precision), often inside the original's own millisecond with sub-millisecond digits
+                if rng.random() < 0.6:
+                    us = pred.base() // 1000 * 1000 + rng.choice([1, 250, 400, 999, 1000, 1250, 1999])
+                prec, cons = rng.choice([("millisecond", "min"), ("millisecond", "min"), ("any", "exact"), ("millisecond", "exact"),
+                                         ("second", "min")])
+                off = rng.choice([0, 0, 0, 19800000000, -18000000000])
+                sv = SDT(us + off, off, prec, cons)
+                us = instant_of_value(sv)
+            else:
+                sv = ts_value(rng, us, allow_naive=False)
+            ch.insert(rng.randint(0, len(ch)), ["modified", sv])
             op = {"op": "new", "changes": ch, "now": now, "allow_custom": ac, "legal": True}
             b = pred.base()
             if not revoked and ser(ver, us) > ser(ver, b):
@@ -523,6 +553,9 @@ def special_cases(run, n):
 def coq_val(v):
     if "j" in v:
         return "(PJ %s)" % common.coq_jvalue(v["j"])
+    if "sdt" in v:
+        local, off = sdt_fields(v)
+        return "(PDt %s (Some %s))" % (common.coq_Z(local), common.coq_Z(off))
     if "dt" in v:
         local, off = v["dt"]
         return "(PDt %s %s)" % (common.coq_Z(local), "None" if off is None else "(Some %s)" % common.coq_Z(off))
